@@ -313,3 +313,78 @@ def check_tolerances(ctx, rule, construct, where, args, limits, what):
         if not nf.is_const(v.nf) or (kind == "max" and nf.cval(v.nf) > Fraction(bound)) or (kind == "min" and nf.cval(v.nf) < Fraction(bound)):
             loose.append(f"{kw}={nf.show(v.nf, 30)}")
     ctx.check(not loose, rule, construct, where, what, signature="loose " + ",".join(loose), given={k: nf.show(args[k].nf, 30) for k in limits if isinstance(args.get(k), Num)})
+
+
+def check_wrappers(ctx, rule, module_names):
+    """Shared rule W: a decorated public function means the same whether its arguments are given by position, by keyword
+    in signature order, or by keyword in another order.  (A wrapper that forwards `*args` but forgets `**kwargs`, that
+    turns keywords into positionals in call-site order, or that finds an argument by index for one convention and by name
+    for the other, changes what a call means - silently, or with a TypeError the undecorated function did not raise.)
+    The decorated function is interpreted through its decorators under the three conventions and the sets of
+    (outcome, result term) over the trace partitions are compared."""
+    from ..values import FuncV
+
+    n = 0
+    for mn in module_names:
+        m = ctx.P.module(mn)
+        funcs = list(m.functions.values()) + [f for c in m.classes.values() for f in c.methods.values()]
+        for fi in funcs:
+            it0 = interp(ctx)
+            if not it0._effective_decorators(fi) or fi.name.startswith("_"):
+                continue
+            names = [p for p in fi.params if not (fi.cls is not None and p == fi.params[0] and p in ("self", "cls"))]
+            if not names:
+                continue
+            n += 1
+            results = {}
+            for conv in ("positional", "keywords", "keywords reversed"):
+                it = interp(ctx)
+
+                def runner(x, conv=conv, fi=fi):
+                    bound = x.symbolic_args(fi)
+                    sv = None
+                    if fi.cls is not None and fi.params and fi.params[0] == "self":
+                        from ..values import Inst
+
+                        sv = Inst(fi.cls, {}, "self")
+                    order = names if conv != "keywords reversed" else list(reversed(names))
+                    pos = [bound[p] for p in names] if conv == "positional" else []
+                    kw = {} if conv == "positional" else {p: bound[p] for p in order}
+                    kw.update({k: bound[k] for k in fi.kwonly if k in bound})
+                    return x.call(FuncV(fi, None, sv, fi.cls), pos, kw, fi.node, None)
+
+                try:
+                    paths = it.explore(runner)
+                    results[conv] = {(p.outcome, p.exc if p.outcome == "raise" else nf.key(it.to_nf(p.value)) if p.value is not None else None) for p in paths}
+                except AnalysisError as e:
+                    results[conv] = {("error", str(e)[:120])}
+            base = results["positional"]
+            diff = [c for c in ("keywords", "keywords reversed") if results[c] != base]
+            ctx.check(
+                not diff, rule, fi.qualname + ":calling conventions", fi.where(),
+                "through its decorators the function returns the same result (on every trace partition) for positional arguments, keyword arguments, and keyword arguments in another order",
+                signature="differs for " + ",".join(diff), conventions={c: len(r) for c, r in results.items()},
+                detail=[str(sorted((x for x in results[c] if x not in base), key=repr)[:1])[:200] for c in diff],
+            )
+    return n
+
+
+def check_errstate(ctx, rule, module_names):
+    """No floating-point condition is turned into an exception around the numerical kernels: under
+    `np.errstate(all="raise")` (or under= / over= / invalid= / divide="raise", or np.seterr) an admissible input whose
+    intermediate underflows - a saturation a hair above residual raised to the sixth power - aborts the call with
+    FloatingPointError instead of returning a finite number."""
+    import ast as _ast
+
+    n = 0
+    for mn in module_names:
+        m = ctx.P.module(mn)
+        bad = []
+        for node in _ast.walk(m.tree):
+            if isinstance(node, _ast.Call) and _ast.unparse(node.func) in ("np.errstate", "numpy.errstate", "np.seterr", "numpy.seterr"):
+                n += 1
+                for k in node.keywords:
+                    if isinstance(k.value, _ast.Constant) and k.value.value == "raise":
+                        bad.append(f"line {node.lineno}: {_ast.unparse(node)[:60]}")
+        ctx.check(not bad, rule, f"{mn}:floating-point error state", m.relpath, "no floating-point condition (underflow, overflow, invalid, divide) is set to raise inside the library", signature="errstate raise", sites=bad)
+    return n
